@@ -8,7 +8,13 @@ Case kinds
           consistent_sampling (scratch: sampled_cvr_indices=None, continue: the list returned before), build
           cvr_sample / mvr_sample in shuffled order, prep_comparison_sample, mvrs_to_data per contest.
           Which cards became data is read off the returned overstatement values: the MVR of card i carries the
-          tag i+1 and the assorter maps a record to tag/K, so every value decodes to exactly one card.
+          tag i+1, its CVR is worth (n+1)(i+1) (read off its id, so that its vote dicts stay arbitrary, empty ones
+          included), and the assorter maps a record to that number / K, so a value decodes to the card of its CVR and
+          to the card of its MVR (they must be the same card).  The manual records are, per case, either
+          all complete (every audited contest listed) or varied per card ("mvr": phantom -- the card was not found --,
+          or a found card whose manual record lacks some of the contests its CVR lists): what the manual records say
+          must not change WHICH cards are a contest's data.  A pair whose CVR is a phantom (scored 1/2) and whose
+          manual record scores 0 carries no tag; such pairs are interchangeable (label -1).
   cs      one call with an arbitrary carried-over list (duplicates, out of range, not produced by the sampler)
           and arbitrary initial thresholds
   assign  assign_sample_nums with a scripted stub generator, and with the real cryptorandom SHA256
@@ -30,7 +36,8 @@ from ..core import impl_call, err_kind, fr
 NAME = "sampling"
 RULE = ("rounds: 1-40 cards, 1-5 contests, random styles (cards listing nothing, phantoms), distinct random sample "
         "numbers (256-bit or small), 1-4 rounds of non-decreasing size vectors incl. 0 and the maximum, scratch/continue "
-        "per round; malformed streams: equal sample numbers, sizes beyond the maximum (IndexError), decreasing sizes; "
+        "per round; manual records complete, or (4 in 10 histories) per card a phantom record / a found card whose record "
+        "lacks contests its CVR lists; malformed streams: equal sample numbers, sizes beyond the maximum (IndexError), decreasing sizes; "
         "renumber: number(seed) -> consistent_sampling -> number(other seed) on one list (constructor or from_dict with sampled flags), every numbering compared with a fresh generator; exhaustive part: every style sequence of <=4 (quick) / <=5 (thorough) cards x 2 contests x every feasible "
         "size vector; cs/assign/prep/data/proved as described in the module docstring; non-trivial = at least two "
         "contests with different positive sizes sharing a card, or an error branch; distinct = distinct canonical input")
@@ -49,6 +56,11 @@ def _votes(rng, styles):
         k = rng.randint(0, 3)
         out[c] = {rng.choice(["x", "y", "z", "w"]): rng.choice([0, 1, 2, True, False, "1"]) for _ in range(k)}
     return out
+
+
+def _K(n):
+    """scale of the tags: CVR tags (n+1)(i+1) <= n(n+1) stay below K/4, MVR tags i+1 <= n below K/(4(n+1))"""
+    return 4 * (n + 1) ** 2
 
 
 def _mk_cvrs(cards, vseed):
@@ -72,25 +84,64 @@ def _mk_contests(contests, use_style=True, audit_type=None):
 MARGIN = 0.5
 
 
-def _mk_assertion(con, K, test=None):
+def _mk_assertion(con, K, n, test=None):
+    """the assorter of the tagging scheme: a manual record (made by `_mk_mvrs`) is worth the tag it carries for the
+    contest, (i+1)/K; a CVR -- whatever its vote dicts hold, empty ones included -- is worth (n+1)(i+1)/K if it lists
+    the contest (i from its id "c<i>"), else 0"""
     from shangrla.core.Audit import Assertion, Assorter
     from shangrla.core.NonnegMean import NonnegMean
     cid = con.id
-    a = Assorter(contest=con, assort=lambda c, cid=cid: c.votes.get(cid, {}).get("tag", 0) / K, upper_bound=1)
+
+    def assort(c, cid=cid):
+        if getattr(c, "_manual_record", False):
+            return c.votes.get(cid, {}).get("tag", 0) / K
+        return (n + 1) * (int(c.id[1:]) + 1) / K if cid in c.votes else 0
+    a = Assorter(contest=con, assort=assort, upper_bound=1)
     return Assertion(contest=con, assorter=a, margin=MARGIN, test=test or NonnegMean())
 
 
-def _decode(d, K):
-    """overstatement-assorter values -> card indices (see module docstring)"""
+def _decode(d, K, n):
+    """overstatement-assorter values -> card indices (see module docstring): overstatement = (CVR side) - (MVR side),
+    CVR side = (n+1)(i+1)/K for a record listing the contest, 0 for one that does not, 1/2 for a phantom; MVR side =
+    (j+1)/K, or 0 for a phantom / a record lacking the contest.  i and j must name the same card (else -2); -1 if the
+    value carries neither"""
     out = []
     for x in d:
         over = 1 - float(x) * (2 - MARGIN)
-        t = -over * K if over < 1e-9 else (0.5 - over) * K
-        out.append(int(round(t)) - 1)
+        ci = mj = None
+        if over > 0.25 + 1e-9:                      # phantom CVR
+            t = int(round((0.5 - over) * K))
+            mj = t - 1 if t >= 1 else None
+        else:
+            V = int(round(over * K))
+            if V <= 0:                              # the CVR does not list the contest (no style information)
+                mj = -V - 1 if V < 0 else None
+            else:
+                q, r = divmod(V, n + 1)
+                if r == 0:
+                    ci = q - 1
+                else:
+                    ci, mj = q, n - r
+        if ci is not None and mj is not None:
+            out.append(ci if ci == mj else -2)
+        else:
+            out.append(ci if ci is not None else mj if mj is not None else -1)
     return out
 
 
-def _mk_mvrs(n, cids, vseed):
+def _mvr_scores_zero(cd, cid):
+    m = cd.get("mvr") or {}
+    return bool(m.get("phantom")) or cid in (m.get("lacks") or [])
+
+
+def _label(cards, i, cid):
+    """what `_decode` yields for card i in the data of contest `cid` when CVR i is paired with MVR i"""
+    cd = cards[i]
+    cvr_tag = (not cd["phantom"]) and cid in cd["styles"]
+    return i if (cvr_tag or not _mvr_scores_zero(cd, cid)) else -1
+
+
+def _mk_mvrs(n, cids, vseed, cards=None):
     from shangrla.core.Audit import CVR
     rng = random.Random(vseed + 7919)
     mv = []
@@ -98,7 +149,13 @@ def _mk_mvrs(n, cids, vseed):
         votes = _votes(rng, cids)
         for c in cids:
             votes[c]["tag"] = i + 1
-        mv.append(CVR(id=f"c{i}", votes=votes, phantom=False))
+        m = (cards[i].get("mvr") if cards is not None else None) or {}
+        for c in (m.get("lacks") or []):
+            votes.pop(c, None)                       # a found card whose manual record does not show the contest
+        if m.get("phantom") and m.get("empty", True):
+            votes = {}                               # the record the library makes for a card that is not found
+        mv.append(CVR(id=f"c{i}", votes=votes, phantom=bool(m.get("phantom"))))
+        mv[-1]._manual_record = True
     return mv
 
 
@@ -111,11 +168,11 @@ def _run_history(case, vseed):
     from shangrla.core.Audit import CVR
     cards, n = case["cards"], len(case["cards"])
     cids = [c["id"] for c in case["contests"]]
-    K = 4 * (n + 1)
+    K = _K(n)
     cvrs = _mk_cvrs(cards, vseed)
-    mvrs = _mk_mvrs(n, cids, vseed)
+    mvrs = _mk_mvrs(n, cids, vseed, cards)
     contests = _mk_contests(case["contests"], use_style=case["use_style"])
-    asns = {c: _mk_assertion(con, K) for c, con in contests.items()}
+    asns = {c: _mk_assertion(con, K, n) for c, con in contests.items()}
     rng = random.Random(vseed + 13)
     prev, out = None, []
     for r in case["rounds"]:
@@ -158,7 +215,7 @@ def _run_history(case, vseed):
         for c in cids:
             try:
                 d, u = asns[c].mvrs_to_data(ms, cs)
-                data.append({"st": "ok", "v": _decode(d, K)})
+                data.append({"st": "ok", "v": _decode(d, K, n)})
             except Exception as e:  # noqa
                 data.append({"st": "err", "err": err_kind(e)})
         rec["cards"] = data
@@ -228,14 +285,14 @@ def impl(case):
               "polling": Audit.AUDIT_TYPE.POLLING, "other": "SOMETHING_ELSE"}[case["ty"]]
         con = _mk_contests([case["contest"]], use_style=case["use_style"], audit_type=ty)[case["contest"]["id"]]
         n = len(case["sample"])
-        K = 4 * (n + 1)
-        asn = _mk_assertion(con, K)
+        K = _K(n)
+        asn = _mk_assertion(con, K, n)
         cs = _mk_cvrs(case["sample"], case["vseed"])
         ms = _mk_mvrs(n, [con.id], case["vseed"])
         d, u = asn.mvrs_to_data(ms, cs, use_all=case["use_all"])
         if case["ty"] == "polling":   # assorter values tag/K
             return {"st": "ok", "pos": [int(round(float(x) * K)) - 1 for x in d]}
-        return {"st": "ok", "pos": _decode(d, K)}
+        return {"st": "ok", "pos": _decode(d, K, n)}
     if k == "proved":
         from shangrla.core.Audit import Assertion, CVR
         from shangrla.core.NonnegMean import NonnegMean
@@ -247,7 +304,7 @@ def impl(case):
             return p, [p]
         con = _mk_contests([{"id": "A", "size": 1, "thr": 10}])["A"]
         con.risk_limit = float(eval_frac(case["limit"]))
-        asn = _mk_assertion(con, 8, test=NonnegMean(test=scripted))
+        asn = _mk_assertion(con, _K(1), 1, test=NonnegMean(test=scripted))
         asn.proved = bool(case["init"])
         con.assertions = {"a": asn}
         cs = _mk_cvrs([{"styles": ["A"], "num": 1, "phantom": False}], 1)
@@ -393,9 +450,13 @@ def compare(case, ir, mr):
                 if s:
                     return f"round {r} contest {ci} data: {s}"
                 if dx["st"] == "ok":
-                    if dx["v"] != dy["v"]:
-                        return f"round {r} contest {ci}: data cards {dx['v']} vs model {dy['v']}"
-                    if [(x["sel"].index(i) if i in x["sel"] else -1) for i in dx["v"]] != py["v"]:
+                    cid = case["contests"][ci]["id"]
+                    want = [_label(case["cards"], i, cid) for i in dy["v"]]     # (= dy["v"] when every card carries a tag)
+                    if dx["v"] != want:
+                        return f"round {r} contest {ci}: data cards {dx['v']} vs model {dy['v']}" + (
+                            "" if want == dy["v"] else f" (as labels: {want})")
+                    if [(x["sel"].index(i) if i in x["sel"] else -1) if i >= 0 else py["v"][k]
+                            for k, i in enumerate(dx["v"])] != py["v"]:
                         return f"round {r} contest {ci}: data positions differ"
         # accumulated `sampled` flags: compare the last successful round with the union of the model's selections
         oks = [x for x in a if x["st"] == "ok"]
@@ -524,9 +585,34 @@ def gen_rounds(rng, n=None, ncon=None, nr=None, malformed=None):
     if malformed == "decrease" and nr >= 2:
         r = rng.randrange(1, nr)
         rounds[r]["sizes"] = [rng.randint(0, max(0, s)) for s in rounds[r - 1]["sizes"]]
+    if rng.chance(0.4):
+        _vary_mvrs(rng, cards, cids)
     return {"kind": "rounds", "use_style": (malformed != "nostyle"), "cards": cards,
             "contests": [{"id": c, "size": 0, "thr": None} for c in cids], "rounds": rounds,
             "vseed": rng.randint(0, 10 ** 6)}
+
+
+def _vary_mvrs(rng, cards, cids):
+    """what the audit board reports for each card: nothing special (the record lists every audited contest), the card
+    was not found (phantom record: mostly for phantom CVRs, now and then for a real one), or a found card whose record lacks some of
+    the contests -- among them, usually, contests its CVR lists"""
+    p_lack = rng.choice([0.15, 0.3, 0.6])
+    for cd in cards:
+        u = rng.random()
+        if cd["phantom"]:
+            if u < 0.75:
+                cd["mvr"] = {"phantom": True, "lacks": [], "empty": rng.chance(0.8)}
+            elif u < 0.9:
+                cd["mvr"] = {"phantom": False, "lacks": [c for c in cids if rng.chance(0.5)]}
+            continue
+        if u < 0.08:
+            cd["mvr"] = {"phantom": True, "lacks": [], "empty": rng.chance(0.8)}
+        elif u < 0.08 + p_lack:
+            listed = [c for c in cids if c in cd["styles"]]
+            lacks = [c for c in listed if rng.chance(0.6)] + [c for c in cids if c not in listed and rng.chance(0.5)]
+            if listed and not lacks:
+                lacks = [rng.choice(listed)]
+            cd["mvr"] = {"phantom": False, "lacks": lacks}
 
 
 def gen_exhaustive(rng, maxn):
@@ -544,7 +630,11 @@ def gen_exhaustive(rng, maxn):
                     if rng.chance(0.5):
                         rounds.append({"sizes": [rng.randint(nA, aA), rng.randint(nB, aB)], "cont": rng.chance(0.5),
                                        "prev_order": rng.choice(["returned", "index", "rev"])})
-                    yield {"kind": "rounds", "use_style": True, "cards": cards,
+                    cc = cards
+                    if rng.chance(0.25):
+                        cc = [dict(cd) for cd in cards]
+                        _vary_mvrs(rng, cc, ["A", "B"])
+                    yield {"kind": "rounds", "use_style": True, "cards": cc,
                            "contests": [{"id": "A", "size": 0, "thr": None}, {"id": "B", "size": 0, "thr": None}],
                            "rounds": rounds, "vseed": rng.randint(0, 10 ** 6)}
 
@@ -850,9 +940,14 @@ def oracle_c07(case, ir):
                     return {"what": f"round {r} contest {case['contests'][ci]['id']}: threshold {res['thr'][ci]}, "
                                     f"sample number of its {nc}-th card is {t}"}
                 d = res["cards"][ci]
-                if d["st"] != "ok" or d["v"] != first:
-                    return {"what": f"round {r} contest {case['contests'][ci]['id']}: data cards "
-                                    f"{d.get('v', d.get('err'))}, its first {nc} cards are {first}"}
+                cid = case["contests"][ci]["id"]
+                lab = [_label(cards, i, cid) for i in first]
+                if d["st"] != "ok" or d["v"] != lab:
+                    return {"what": f"round {r} contest {cid}: data cards "
+                                    f"{d.get('v', d.get('err'))}, its first {nc} cards are {first}"
+                                    + ("" if lab == first else f" (as labels: {lab}; -1 = phantom CVR with a manual record that scores 0)")
+                                    + (f"; manual records: { {i: cards[i]['mvr'] for i in first if cards[i].get('mvr')} }"
+                                       if any(cards[i].get("mvr") for i in first) else "")}
     return None
 
 
